@@ -373,14 +373,18 @@ impl<'a> MemberAttrs {
         self.parent_attrs.iter().any(|x| x.container_ty.is_none() || x.container_ty.as_ref().unwrap() == container_ty)
     }
 
+    fn applicable_parent_attr(&'a self, container_ty: &TypePath) -> Option<&ParentAttr> {
+        self.parent_attrs.iter()
+            .find(|x| x.container_ty.is_some() && x.container_ty.as_ref().unwrap() == container_ty)
+            .or_else(|| self.parent_attrs.iter().find(|x| x.container_ty.is_none()))
+    }
+
     pub(crate) fn has_parameterless_parent_attr(&'a self, container_ty: &TypePath) -> bool {
-        self.parent_attrs.iter().any(|x| x.child_fields.is_none() && (x.container_ty.is_none() || x.container_ty.as_ref().unwrap() == container_ty))
+        self.applicable_parent_attr(container_ty).map_or(false, |x| x.child_fields.is_none())
     }
 
     pub(crate) fn parameterized_parent_attr(&'a self, container_ty: &TypePath) -> Option<&ParentAttr> {
-        self.parent_attrs.iter()
-            .find(|x| x.container_ty.is_some() && x.container_ty.as_ref().unwrap() == container_ty && x.child_fields.is_some())
-            .or_else(|| self.parent_attrs.iter().find(|x| x.container_ty.is_none() && x.child_fields.is_some()))
+        self.applicable_parent_attr(container_ty).filter(|x| x.child_fields.is_some())
     }
 
     pub(crate) fn field_attr(&'a self, kind: &'a Kind, fallible: bool, container_ty: &TypePath) -> Option<&MemberAttr> {
